@@ -219,13 +219,25 @@ def posterior_checks(tr, s, prop_rows='C03', prop_w='C02'):
     return n
 
 
+def _beat(hb):
+    if hb:
+        try:
+            os.utime(hb, None)
+        except OSError:
+            pass
+
+
 def worker(job):
     cfg, prop, extras = job
     t0 = time.time()
+    hb = cfg.get('heartbeat')
     try:
         tr = T.run_traced(cfg)
     except Exception:     # noqa
+        cfg.pop('heartbeat', None)
         return dict(cfg=cfg, crashed=traceback.format_exc()[-2000:])
+    cfg.pop('heartbeat', None)
+    _beat(hb)
     res = dict(cfg=cfg, stats=tr.stats, n_batches=tr.n_batches, done=bool(tr.done), borderline=getattr(tr, 'borderline', False))
     tmp = extras.get('tmp', '/tmp')
     ok, rejects, diffs = T.replay_through_model(tr, tmp)
@@ -245,6 +257,7 @@ def worker(job):
             pdiffs = [(label, a, b)]
         else:
             pdiffs = project_all(tr, tmp, proj)
+    _beat(hb)
     res['model_ok'] = not pdiffs
     res['model_diff'] = pdiffs[:2]
     res['events'] = tr.stats['events']
@@ -254,6 +267,7 @@ def worker(job):
         snaps = tr.snaps
         keep = [sn for i, sn in enumerate(snaps) if sn['label'] in ('end_exploration', 'set_discard', 'resume') or i % max(1, len(snaps) // extras.get('max_snaps', 20)) == 0 or i == len(snaps) - 1]
         n_est = estim_compare(tr, keep, tmp, prop=prop)
+        _beat(hb)
     if prop in ('C02', 'C03', 'C12'):
         n_rows = posterior_checks(tr, s, prop_rows='C03' if prop != 'C12' else 'C12', prop_w='C02' if prop != 'C12' else 'C12')
         if s.explored:
@@ -352,6 +366,48 @@ def c12_direct(tr, s):
             break
 
 
+def run_jobs(jobs, tmpdir, prop):
+    """run worker() on every job in a pool of 16 under the hang watchdog; returns one result per job (a dict with key
+    'hung' for a job that made no progress)"""
+    # watchdog: a run() that never returns must not hang the check.  A worker touches its heartbeat file at every
+    # observation; a job counts as hung when it has not finished within the limit AND its heartbeat has been silent for
+    # `silent` seconds (a slow machine keeps the heartbeat alive, a spinning run() does not)
+    limit = 6 * max(j[0].get('max_seconds', 14) for j in jobs) + 90
+    silent = 300
+    hb = [os.path.join(tmpdir, 'hb_%s_%d' % (prop, i)) for i in range(len(jobs))]
+    for i, j in enumerate(jobs):
+        j[0]['heartbeat'] = hb[i]
+        open(hb[i], 'w').close()
+    pool = Pool(16)
+    asyncs = [pool.apply_async(worker, (j,)) for j in jobs]
+    results = [None] * len(jobs)
+    t0 = time.time()
+    pending = set(range(len(jobs)))
+    while pending:
+        for i in sorted(pending):
+            if asyncs[i].ready():
+                try:
+                    results[i] = asyncs[i].get(timeout=1)
+                except Exception as e:     # noqa  (worker crash)
+                    results[i] = dict(cfg={k: v for k, v in jobs[i][0].items() if k != 'heartbeat'}, hung='%s' % type(e).__name__)
+                pending.discard(i)
+        now = time.time()
+        if now - t0 > limit:
+            for i in sorted(pending):
+                try:
+                    quiet = now - os.path.getmtime(hb[i])
+                except OSError:
+                    quiet = now - t0
+                if quiet > silent or now - t0 > 4 * limit:
+                    results[i] = dict(cfg={k: v for k, v in jobs[i][0].items() if k != 'heartbeat'}, hung='no progress for %d s' % quiet)
+                    pending.discard(i)
+        if pending:
+            time.sleep(0.5)
+    pool.terminate()
+    pool.join()
+    return results
+
+
 def run_family(run: Run, prop, n_runs, forces=None, extras=None):
     """Run n traced configurations for property `prop`; fill coverage; report violations."""
     rng = np.random.default_rng(run.seed)
@@ -365,19 +421,8 @@ def run_family(run: Run, prop, n_runs, forces=None, extras=None):
         force.setdefault('max_seconds', 60 if run.tier == 'quick' else 240)
         cfg = T.make_config(rng, i, run.tier, force)
         jobs.append((cfg, prop, extras))
-    # watchdog: a run() that never returns must not hang the check
+    results = run_jobs(jobs, run.tmp, prop)
     limit = 6 * max(j[0].get('max_seconds', 14) for j in jobs) + 90
-    pool = Pool(16)
-    asyncs = [pool.apply_async(worker, (j,)) for j in jobs]
-    results = []
-    t_end = time.time() + limit
-    for j, a in zip(jobs, asyncs):
-        try:
-            results.append(a.get(timeout=max(1.0, t_end - time.time())))
-        except Exception as e:     # noqa  (multiprocessing.TimeoutError or a worker crash)
-            results.append(dict(cfg=j[0], hung='%s' % type(e).__name__))
-    pool.terminate()
-    pool.join()
     hung = [r for r in results if 'hung' in r]
     results = [r for r in results if 'hung' not in r]
     tot = {}
